@@ -1,6 +1,6 @@
 #!/bin/bash
 # usage: tools/seed_import.sh <id> <variant>  -- copy a confirmed seeded change into /verif/seeded/<id>/<variant>/
-id=$1; v=$2; src=/tmp/seed_$id/OUT/$v; dst=/verif/seeded/$id/$v
+id=$1; v=$2; src=${SEED_ROOT:-/tmp/seed}_$id/OUT/$v; dst=/verif/seeded/$id/$v
 mkdir -p $dst/demo
 cp $src/patch.diff $dst/patch.diff
 cp $src/meta.json $dst/meta.json
